@@ -177,7 +177,7 @@ func judge(sc *proto.Scenario, res *proto.Result, refs [][]*proto.OpResult, meta
 		changed = false
 		for _, o := range res.Ops {
 			op := &sc.Tasks[o.Task][o.Op]
-			if op.Kind != proto.OpResolve || !o.Done {
+			if (op.Kind != proto.OpResolve && op.Kind != proto.OpClone) || !o.Done {
 				continue
 			}
 			for _, t := range taint[op.Mod] {
@@ -348,7 +348,7 @@ func sourceOf(sc *proto.Scenario, obj int) int {
 				if o.Dst == obj && o.Kind == proto.OpLower {
 					return o.Src
 				}
-				if o.Dst == obj && o.Kind == proto.OpResolve {
+				if o.Dst == obj && (o.Kind == proto.OpResolve || o.Kind == proto.OpClone) {
 					obj = o.Mod
 					found = true
 				}
